@@ -121,5 +121,6 @@ func CreateSpliceInsertPayload(p SpliceInsertParams) []byte {
 	cmd.SetIsOut(p.OutOfNetworkIndicator)
 	cmd.SetSpliceImmediate(p.SpliceImmediateFlag)
 	s.SetCommandInfo(cmd)
+	s.SetPTS(gots.PTS(p.PtsTime)) // Keeps pts_adjustment at 0, so that the splice time is pts_time
 	return s.UpdateData()
 }
